@@ -371,10 +371,14 @@ func (p *Prog) ComputeLocksets(funcs []*ssa.Function) *Locksets {
 	return ls
 }
 
+// namedValueUses counts, per named function, its uses as a value (not in
+// call position); filled by Load.
+var namedValueUses map[*ssa.Function]int
+
 func addrTaken(f *ssa.Function) bool {
 	refs := f.Referrers()
 	if refs == nil {
-		return false
+		return namedValueUses[f] > 0
 	}
 	for _, r := range *refs {
 		if cc := callOf(r); cc != nil && cc.Value == f {
